@@ -119,6 +119,7 @@ def build_script(kind, cfg, hist, target):
         elif op == 'pollempty':
             sc.append({'op': 'call', 'var': 'w', 'method': 'next_result', 'kwargs': {'block': False}, 'timeout': 6, 'h': 'pollempty'})
             sc.append({'op': 'call', 'var': 'w', 'method': 'next_result', 'kwargs': {'timeout': 0.05}, 'timeout': 6, 'h': 'pollempty'})
+            sc.append({'op': 'call', 'var': 'w', 'method': 'next_result', 'kwargs': {'timeout': 0}, 'timeout': 6, 'h': 'pollempty'})
         elif op == 'call':
             sc.append({'op': 'call', 'var': 'w', 'method': 'call', 'args': ENQ['ez'][0], 'kwargs': ENQ['ez'][1], 'timeout': 6, 'h': op})
         elif op == 'drain':
